@@ -231,6 +231,18 @@ def open_mode(call: ast.Call) -> str:
         return "r"
     if isinstance(mode, ast.Constant) and isinstance(mode.value, str):
         return mode.value
+    # a named constant (_WRITE_BINARY = "wb")
+    from engine.model import CURRENT_MODEL
+    m = CURRENT_MODEL[0]
+    if m is not None and isinstance(mode, (ast.Name, ast.Attribute)):
+        fn = m.enclosing_function(call)
+        if fn is not None:
+            try:
+                v = m.const_eval(fn.module, mode, fn.cls)
+                if isinstance(v, str):
+                    return v
+            except (ValueError, KeyError, AttributeError):
+                pass
     return "?"
 
 
